@@ -889,6 +889,17 @@ func scenarios() []*scen {
 	out = append(out, &scen{name: "F2+F7-same-bytes-different-chunks", blobs: []hs.Blob{cA, cB, cC, f2.blob, x1, x2, x3, x4, f7.blob}, files: []fileSpec{f2, f7},
 		maxZip: chunkSize + 40<<10, fixedOrders: [][]int{{0, 1, 2, 3, 4, 5, 6, 7, 8}, {4, 5, 6, 7, 8, 0, 1, 2, 3}},
 		note: "F2 (3 x 256 KiB) and the same 768 KiB cut as 128+256+256+128 KiB under another name, zip limit 296 KiB; orders: all of F2 then all of F7; thorough also the reverse"})
+	// a multi-zip file whose chunks hang under nested "bytes" blobs: one chunk per zip, so the
+	// second bytes blob has all its chunks in zips 2 and 3 and is itself written into zip 2 only
+	q := smallChunks(4, 128<<10)
+	for i := range q {
+		q[i].Name = fmt.Sprintf("q%d", i+1)
+	}
+	by1, by2 := bytesBlob("by1", q[0], q[1]), bytesBlob("by2", q[2], q[3])
+	f9 := fileOverGroups("f9", "f9.bin", bytesGroup{by1, q[:2]}, bytesGroup{by2, q[2:]})
+	out = append(out, &scen{name: "F9-nested-bytes-four-zips", blobs: []hs.Blob{q[0], q[1], q[2], q[3], by1, by2, f9.blob}, files: []fileSpec{f9},
+		maxZip: 128<<10 + 40<<10, fixedOrders: [][]int{{0, 1, 2, 3, 4, 5, 6}, {6, 5, 4, 3, 2, 1, 0}},
+		note: "file -> [bytes(q1,q2), bytes(q3,q4)], 4 x 128 KiB chunks, zip limit 168 KiB: one chunk per zip, the second bytes blob and its chunks only in zips 2 and 3; orders: chunks, bytes blobs, file; thorough also the reverse"})
 	return out
 }
 
